@@ -13,6 +13,7 @@ TX = [(r'dtn://far/.*', None), (r'dtn://frag/.*', FRAG_MTU), (r'dtn://tiny/.*', 
       (r'dtn://node/.*', None)]
 OUTCOMES = {'deliver': '//node/app', 'forward': '//far/x', 'fwdfrag': '//frag/x', 'delete': '//del/x',
             'noroute': '//nowhere/x', 'fwdnotx': '//lost/x', 'fwdunsend': '//tiny/x', 'secfail': '//node/sec'}
+LATE = {'fwdlate': '//lost/x'}      # only inside histories: the route for dtn://lost/ has appeared by then
 SEC_REASONS = (12, 13, 14, 15, 16)
 
 
@@ -32,7 +33,7 @@ ANYREQ = A.F_DEL | A.F_DLV | A.F_FWD | A.F_RCV
 def mk_case(flags, rpt, outcome, seq=0, ct=0, ts=None, extra=None, dwell=0, plen=None, bct=0):
     if plen is None:
         plen = 400 if outcome == 'fwdfrag' else 5
-    p = A.mk_pri(A.dtn(OUTCOMES[outcome]), SRC, ts or [A.T0 - 40, seq], flags=flags, ct=ct,
+    p = A.mk_pri(A.dtn(dict(OUTCOMES, **LATE)[outcome]), SRC, ts or [A.T0 - 40, seq], flags=flags, ct=ct,
                  rpt=RPT_EID if rpt == 'eid' else 'none')
     extra = list(extra or [])
     params = {}
@@ -88,7 +89,14 @@ def observe(case, obs):
 
 
 def monitors(chk, case, obs):
-    it = case['items'][0]
+    ''' every bundle of the case (most cases have one) against the property text, on its own window of
+    observations (reception + the idle sources drained after it) '''
+    for ix, it in enumerate(case['items']):
+        earlier = [(A.eid_text(j['b']['pri']['src']), list(j['b']['pri']['ts'])) for j in case['items'][:ix]]
+        _monitor_item(chk, case, it, [o for o in obs if o['item'] == ix], it.get('outcome', case['outcome']), earlier)
+
+
+def _monitor_item(chk, case, it, obs, outcome, earlier):
     p = it['b']['pri']
     flags = p['flags']
     rj = replay_obj(case)
@@ -101,16 +109,26 @@ def monitors(chk, case, obs):
         occurred.add('forward')
     route_act = dict((('//node/app', 'deliver'), ('//far/x', 'forward'), ('//frag/x', 'forward'),
                       ('//lost/x', 'forward'), ('//tiny/x', 'forward'), ('//del/x', 'delete'),
-                      ('//node/sec', 'deliver'))).get(OUTCOMES[case['outcome']])
+                      ('//node/sec', 'deliver'))).get(dict(OUTCOMES, **LATE)[outcome])
     if route_act == 'delete' or (route_act == 'forward' and not left):
         occurred.add('delete')
-    if case['outcome'] == 'secfail' and not delivered:
+    if outcome == 'secfail' and not delivered:
         occurred.add('delete')      # deleted for the security failure, never delivered
     enabled = (not it['b'].get('rpt_none')) and p['rpt'] != 'none'
     expected = set(a for a in occurred if flags & A.REQ[a])
-    chk.count('outcome:%s' % case['outcome'])
+    chk.count('outcome:%s' % outcome)
     chk.count('reports:%d' % len(reports))
-    tag = 'flags=%#x rpt=%s outcome=%s' % (flags, case['rpt'], case['outcome'])
+    tag = 'flags=%#x rpt=%s outcome=%s' % (flags, case['rpt'], outcome)
+    for r in reports:
+        subj = A.report_subject(r)
+        if subj in earlier:
+            chk.violation('C19:second-report-for-earlier-bundle',
+                          '%s: while this bundle was processed a status report about the EARLIER bundle %s was sent: %s'
+                          % (tag, subj, decode_report(r) and decode_report(r)['infos']), rj)
+    if whole and any((A.eid_text(w.pri['src']), list(w.pri['ts'])) in earlier for w in whole):
+        chk.violation('C19:earlier-bundle-sent-late',
+                      '%s: an earlier bundle of the history was handed to the CL in this bundle\'s turn' % tag, rj)
+        return
     # a forwarded bundle is never reported deleted
     for r in reports:
         rec = decode_report(r)
@@ -137,7 +155,7 @@ def monitors(chk, case, obs):
                           % (tag, sorted(occurred), rec and rec['infos']), rj)
         return
     if len(reports) != 1:
-        if not reports and case['outcome'] == 'noroute':
+        if not reports and outcome == 'noroute':
             # No matching route: _finish_bundle is never reached, so a requested reception report is not sent.
             # The property says "only if": not demanded. Counted, not a violation.
             chk.count('noroute:requested-reception-report-not-sent')
@@ -169,7 +187,7 @@ def monitors(chk, case, obs):
                 problems.append('time on an unasserted entry')
         if rec['extra']:
             problems.append('unexpected fragment fields %s' % rec['extra'])
-        if case['outcome'] == 'secfail' and rec['reason'] not in SEC_REASONS:
+        if outcome == 'secfail' and rec['reason'] not in SEC_REASONS:
             problems.append('reason %s is not a security reason' % rec['reason'])
     if r.pri['dest'] != p['rpt']:
         problems.append('addressed to %s, report-to is %s' % (r.pri['dest'], p['rpt']))
@@ -195,8 +213,9 @@ def monitors(chk, case, obs):
 
 def replay_obj(case):
     return {'flags': case['flags'], 'rpt': case['rpt'], 'outcome': case['outcome'], 'rx': RX, 'tx': TX,
-            'items': [{'b': it['b'], 'now': it['now'], 'crc_ok': True, 'dwell': it.get('dwell', 0),
-                       'params': it.get('params', {})} for it in case['items']]}
+            'items': [dict({'b': it['b'], 'now': it['now'], 'crc_ok': True, 'dwell': it.get('dwell', 0),
+                            'params': it.get('params', {})},
+                           **{k: it[k] for k in ('add_tx', 'outcome') if k in it}) for it in case['items']]}
 
 
 def run_cases(chk, cases):
@@ -216,8 +235,26 @@ def run_cases(chk, cases):
         chk.cov['traces_validated_against_impl'] += 1
         monitors(chk, case, obs)
         chk.case({'f': case['flags'], 'r': case['rpt'], 'o': case['outcome'],
-                  'x': json.dumps(case['items'][0]['b'], sort_keys=True)},
+                  'x': json.dumps([it['b'] for it in case['items']], sort_keys=True), 'n': len(case['items'])},
                  nontrivial=True, sample=(case['flags'] == 0x74040 and case['rpt'] == 'eid'))
+
+
+def mk_history(flags_a, flags_b, late_route=True, seq=60):
+    ''' A is routed forward to a destination without transmit route (deleted, reported); then a route for it
+    appears (peer_node_seen) and B for the same destination arrives; then C on an ordinary route. Every bundle
+    gets its own report set, A is not touched again. '''
+    a = mk_case(flags_a, 'eid', 'fwdnotx', seq=seq)
+    b = mk_case(flags_b, 'eid', 'fwdnotx', seq=seq + 1)['items'][0]
+    c = mk_case(flags_b, 'eid', 'forward', seq=seq + 2)['items'][0]
+    b['now'] += 5
+    c['now'] += 9
+    b['outcome'] = 'fwdlate' if late_route else 'fwdnotx'
+    c['outcome'] = 'forward'
+    if late_route:
+        b['add_tx'] = [(r'dtn://lost/.*', None)]
+    a['items'] += [b, c]
+    a['outcome'] = 'fwdnotx'
+    return a
 
 
 def d14_witness():
@@ -246,6 +283,10 @@ def run(chk):
     cases = [{'flags': r['replay']['flags'], 'rpt': r['replay']['rpt'], 'outcome': r['replay']['outcome'],
               'items': r['replay']['items']} for r in A.corpus('C19')]
     cases.append(d14_witness())
+    for fa in (A.F_DEL | A.F_FWD, ANYREQ | A.F_TIME, A.F_DEL):
+        for fb in (A.F_FWD | A.F_DEL, ANYREQ, 0):
+            for late in (True, False):
+                cases.append(mk_history(fa, fb, late))
     for bits in range(32):
         flags = sum(b for i, b in enumerate(REQBITS) if bits >> i & 1)
         for rpt in RPTS:
